@@ -19,6 +19,9 @@ Streams (every case is reproducible from VERIF_SEED and is JSON in the replay fi
          rational reference and the laws only (NOT modelled in Coq: partial)
   diff   relativedelta(dt1, dt2), the other constructor form: normalised + every unary law
   foreign  == / - / * / / against operands that are not relativedeltas or numbers (laws only)
+  nonfinite  inf / NaN arguments: years / months must give ValueError (open finding F-C16-inf-years), the rest
+         is recorded
+  huge   integer fields beyond the double range (outside the theorems' domain): OverflowError or float-free laws
 A failing case is shrunk (keys dropped, integers moved toward 0, program steps dropped) while it
 still violates the same law before it is written as the replay.
 """
@@ -172,6 +175,40 @@ def finalize(case):
     return conc if conc else case.viol
 
 
+# ------------------------------------------------------------------ independent reference for * and /
+
+def fl(q):
+    """the double nearest to the exact rational q (ties to even): Fraction -> float is one correctly
+    rounded int / int division in CPython; OverflowError beyond the double range like float(int)"""
+    return float(Fraction(q))
+
+
+def ref_products(fields, k, op):
+    """What `int(field * f)` is for f = float(k) (`*`) or f = 1 / float(k) (`/`), computed WITHOUT the float
+    multiplication / division of the implementation: exact Fraction arithmetic, one correct rounding per IEEE
+    operation (int -> double, the division, the product), then truncation toward zero.
+    -> list of ints, or "OverflowError" / "ZeroDivisionError"."""
+    try:
+        f = fl(Fraction(k))
+        if op == "div":
+            if f == 0:
+                return "ZeroDivisionError"
+            f = fl(Fraction(1) / Fraction(f))
+        out = []
+        for x in fields:
+            a = fl(Fraction(x))
+            p = fl(Fraction(a) * Fraction(f))
+            out.append(math.trunc(Fraction(p)))
+        return out
+    except OverflowError:
+        return "OverflowError"
+
+
+def mul_exact(fields, k):
+    """the bound of coq/rd/RdAlgBound.v: k and every product fit 53 bits"""
+    return abs(k) < (1 << 53) and all(abs(x * k) < (1 << 53) for x in fields)
+
+
 # ------------------------------------------------------------------ generators
 
 def gen_kw16(r):
@@ -210,9 +247,15 @@ def gen_kw16(r):
                 b = BASES.get(name, 7)
                 kw[name] = r.choice([-1, 1]) * r.choice([b - 1, b, b + 1, 2 * b - 1, 2 * b, 0, 1])
         mode = "boundary"
-    else:
+    elif c < 0.97:
         kw = R.gen_kwargs(r, p_rel=0.6, p_abs=0.4)
         mode = "mixed-dense"
+    else:
+        # around and above the float-exactness bound 2^53 (below 2^61, so the oracle can still follow)
+        kw = {}
+        for name in r.sample(R.REL, r.choice([1, 1, 2])):
+            kw[name] = r.choice([-1, 1]) * (r.choice([1 << 53, 1 << 54, (1 << 60) - 7, 3 * (1 << 52)]) + r.choice([-2, -1, 0, 1, 2, 3]))
+        mode = "around-2^53"
     return kw, mode
 
 
@@ -341,14 +384,24 @@ def unary_laws(o, case, d, p):
     case.law("abs(d): total of |fields| preserved",
              tot_us(pa[0]) == tot_us([abs(x) for x in p[0][:7]]) and tot_mo(pa[0]) == tot_mo([abs(x) for x in p[0][:7]]))
     case.model("abs", pa, R.dec_rd(m_abs))
-    # multiplication by 1, 0, -1 (exact when the fields are below 2^52)
-    if all(abs(x) < EXACT for x in p[0][:7]):
+    # multiplication by 1, 0, -1: always against the independent float reference; the laws d*1 == d,
+    # d*0, d*-1 == -d (theorem C16_scalar_mul_laws_bounded) only inside the bound mul_exact
+    for kk, val, mod in ((1, m1, m_m1), (0, m0, m_m0), (-1, mm, m_mm)):
+        prods = ref_products(p[0][:7], kk, "mul")
+        if isinstance(prods, str):
+            case.law("d * %d raises exactly when the reference says so" % kk, False, got=pj(R.rd_proj(val[1])))
+            continue
+        mw = R.dec_rd(o.call(R.E_MULWITH, ep + prods))
+        case.model("d * %d = _fix of the reference float products" % kk, R.rd_proj(val[1]), mw)
+    if mul_exact(p[0][:7], 1):
         case.law("d * 1 == d", m1[1] == d, got=pj(R.rd_proj(m1[1])))
         case.law("d * 0 has no relative part", no_rel(R.rd_proj(m0[1])[0]))
         case.law("d * -1 == -d", mm[1] == nd[1], got=pj(R.rd_proj(mm[1])))
         case.model("d * 1", R.rd_proj(m1[1]), R.dec_rd(m_m1))
         case.model("d * 0", R.rd_proj(m0[1]), R.dec_rd(m_m0))
         case.model("d * -1", R.rd_proj(mm[1]), R.dec_rd(m_mm))
+    else:
+        case.tags.append("fields-above-2^53")
     # normalized() on integer fields
     case.law("normalized() of an integer-valued delta is an equal delta", nz[1] == d, got=pj(R.rd_proj(nz[1])))
     case.model("normalized", R.rd_proj(nz[1]), R.dec_rd(m_nz))
@@ -441,25 +494,36 @@ def check_prog(o, prog, case=None):
                 res = outcome(lambda: d * k)
             else:
                 res = outcome(lambda: k * d)
-            # the truncated float products are computed here (floats are not modelled in Coq)
-            prods = [int(x * f) for x in mp[0][:7]]
+            # the truncated float products come from the independent reference (exact rational arithmetic +
+            # correct rounding), not from the implementation's own float expression
+            prods = ref_products(mp[0][:7], k, op)
+            if isinstance(prods, str):
+                case.law("%s by %s raises %s exactly when the reference says so" % (op, st[2], prods),
+                         res[0] == "err" and res[1] == {"OverflowError": 2}.get(prods, "EXC:" + prods), got=proj_out(res))
+                case.tags.append("scalar-" + prods)
+                break
             req = (R.E_MULWITH, em + prods)
             # exact rational scalar (int, dyadic float, Fraction with a power-of-two denominator; for /
             # only +-2^j): the model computes the truncated products itself
+            f = float(k) if op != "div" else 1 / float(k)
             fq = Fraction(f)
             if (fq.denominator & (fq.denominator - 1)) == 0 and Fraction(k) == (fq if op != "div" else 1 / fq) \
                     and fq.denominator <= 1 << 20 and all(abs(x * fq.numerator) < EXACT for x in mp[0][:7]):
                 mq = R.dec_rd(o.call(E_MULQ, em + [fq.numerator, fq.denominator]))
                 case.model("%s by the exact scalar %s (mul_q)" % (op, fq), proj_out(res), ("ok", mq))
                 case.tags.append("mul_q-compared")
+            else:
+                case.tags.append("scalar-reference-only")
             kk = None
             if op != "div" and Fraction(k).denominator == 1:
                 kk = int(k)
-                if all(abs(x * kk) < EXACT for x in mp[0][:7]):
+                if mul_exact(mp[0][:7], kk):
                     law_tot = (kk * tot_us(mp[0]), kk * tot_mo(mp[0]))
-                    # exact integer scalar: the model's own product must agree as well
+                    # inside the bound mul_exact of RdAlgBound.v: the model's own product must agree as well
                     mi = R.dec_rd(o.call(R.E_MULINT, em + [kk]))
                     case.model("d * %d (exact products)" % kk, proj_out(res), ("ok", mi))
+                else:
+                    case.tags.append("int-scalar-above-2^53")
         elif op == "normalized":
             res = outcome(lambda: d.normalized())
             req = (R.E_NORMALIZED, em)
@@ -977,11 +1041,86 @@ def check_foreign(o, inp, case=None):
     return case
 
 
+# ------------------------------------------------------------------ stream: nonfinite (inf / NaN arguments)
+
+def gen_nonfinite(r):
+    field = r.choice(["years", "months", "years", "months"] + list(R.REL[2:]))
+    kw = R.gen_kwargs(r, p_rel=0.2, p_abs=0.1, allow_yearday=False)
+    kw.pop(field, None)
+    kw.pop("weekday", None)
+    return {"field": field, "value": r.choice(["inf", "-inf", "nan"]), "kw": R.kw_json(kw)}
+
+
+def check_nonfinite(o, inp, case=None):
+    """inf / NaN arguments (not modelled in Coq).  years / months: the property demands ValueError for every
+    non-integer value.  Other relative fields: the constructor's behaviour is recorded (NaN fields make a delta
+    unequal to itself -- outside the domain 'finite values', stated in notes/rdalg.md), never a violation."""
+    case = case or Case("nonfinite", inp)
+    kw = R.kw_from_json(inp["kw"])
+    kw[inp["field"]] = float(inp["value"])
+    res = build(kw)
+    case.notes.update({"outcome": res[0] if res[0] == "ok" else ("err", res[1])})
+    case.nontrivial = True
+    if inp["field"] in ("years", "months"):
+        case.law("non-integer years / months are rejected with ValueError", res == ("err", 1),
+                 got=(res[0] if res[0] == "ok" else ["err", res[1]]), field=inp["field"], value=inp["value"])
+        case.tags.append("years/months=%s -> %s" % (inp["value"], "ok" if res[0] == "ok" else R.ERRNAME.get(res[1], res[1])))
+        return case
+    if res[0] != "ok":
+        case.tags.append("%s -> %s" % (inp["value"], R.ERRNAME.get(res[1], res[1])))
+        return case
+    d = res[1]
+    refl = outcome(lambda: d == d)
+    case.tags.append("%s=%s -> ok, d==d %s" % ("field", inp["value"], refl[1] if refl[0] == "ok" else refl))
+    return case
+
+
+# ------------------------------------------------------------------ stream: huge (integers beyond the double range)
+
+HUGE = [10 ** 400, -10 ** 400, 2 ** 1024, 2 ** 1024 - 1, -(2 ** 1024), 10 ** 309, 2 ** 1023]
+
+
+def gen_huge(r):
+    kw = {r.choice(R.REL): r.choice(HUGE)}
+    if r.random() < 0.4:
+        kw[r.choice(R.REL)] = r.choice(HUGE + [1, -1, 59, 60])
+    return {"kw": kw}
+
+
+def check_huge(o, inp, case=None):
+    """Python ints beyond the double range: outside the domain of the theorems (RdAlgBound.float_range).  The
+    code may raise OverflowError (copysign / float()); any other exception class, or a failing float-free law
+    on a delta that was constructed, is reported."""
+    case = case or Case("huge", inp)
+    res = build(dict(inp["kw"]))
+    if res[0] != "ok":
+        case.law("a huge integer field is accepted or raises OverflowError (nothing else)", res[1] == 2, got=res[1])
+        case.tags.append("constructor -> " + str(R.ERRNAME.get(res[1], res[1])))
+        return case
+    d = res[1]
+    case.tags.append("constructor -> ok")
+    for nm, f in (("d == d", lambda: d == d), ("-(-d) == d", lambda: -(-d) == d),
+                  ("d + (-d) has no relative part", lambda: no_rel(R.rd_proj(d + (-d))[0])),
+                  ("d - d has no relative part", lambda: no_rel(R.rd_proj(d - d)[0])),
+                  ("hash stable", lambda: hash(d) == hash(build(dict(inp["kw"]))[1])), ("bool(d)", lambda: bool(d) is True)):
+        r1 = outcome(f)
+        if r1[0] == "ok":
+            case.law(nm + " (huge fields)", r1[1] is True)
+        else:
+            case.law(nm + " raises only OverflowError (huge fields)", r1[1] == 2, got=r1[1])
+    m = outcome(lambda: d * 1)
+    case.tags.append("d * 1 -> " + ("ok" if m[0] == "ok" else str(R.ERRNAME.get(m[1], m[1]))))
+    if m[0] != "ok":
+        case.law("d * 1 raises only OverflowError (huge fields)", m[1] == 2, got=m[1])
+    case.nontrivial = True
+    return case
+
+
 # ------------------------------------------------------------------ driver
 
 CHECKS = {"ctor": lambda o, inp: check_ctor(o, R.kw_from_json(inp["kw"])),
           "prog": check_prog, "pair": check_pair, "frac": check_frac, "float": check_float,
-          "diff": check_diff, "foreign": check_foreign}
+          "diff": check_diff, "foreign": check_foreign, "nonfinite": check_nonfinite, "huge": check_huge}
 
 
 def gen_case(stream, r):
@@ -1000,13 +1139,17 @@ def gen_case(stream, r):
         return gen_diff(r), None
     if stream == "foreign":
         return gen_foreign(r), None
+    if stream == "nonfinite":
+        return gen_nonfinite(r), None
+    if stream == "huge":
+        return gen_huge(r), None
     return gen_float(r), None
 
 
 
 # ------------------------------------------------------------------ coverage of the anchored code
 
-ANCHOR_RANGES = {"relativedelta.py": [(171, 262), (282, 361), (410, 582), (600, 601)],
+ANCHOR_RANGES = {"relativedelta.py": [(171, 263), (283, 362), (411, 583), (601, 602)],
                  "_common.py": [(6, 31)]}
 
 
@@ -1226,8 +1369,8 @@ def run_job(job):
 
 
 BUDGET = {   # cases per stream
-    "quick": {"ctor": 20000, "prog": 18000, "pair": 18000, "frac": 4000, "float": 5000, "diff": 4000, "foreign": 600},
-    "thorough": {"ctor": 900000, "prog": 800000, "pair": 900000, "frac": 150000, "float": 250000, "diff": 150000, "foreign": 5000},
+    "quick": {"ctor": 20000, "prog": 18000, "pair": 18000, "frac": 4000, "float": 5000, "diff": 4000, "foreign": 600, "nonfinite": 600, "huge": 300},
+    "thorough": {"ctor": 900000, "prog": 800000, "pair": 900000, "frac": 150000, "float": 250000, "diff": 150000, "foreign": 5000, "nonfinite": 5000, "huge": 2000},
 }
 
 
@@ -1276,13 +1419,23 @@ def replay(path):
     return 0
 
 
+def m_inf_years(payload):
+    """F-C16-inf-years: years / months = +-inf raise OverflowError instead of ValueError"""
+    d = payload.get("detail") or {}
+    return (payload.get("stream") == "nonfinite" and "rejected with ValueError" in payload.get("kind", "")
+            and d.get("field") in ("years", "months") and d.get("value") in ("inf", "-inf") and d.get("got") == ["err", 2])
+
+
+MATCHERS = {"inf_years_overflow": m_inf_years}
+
+
 def main():
     argv = sys.argv[1:]
     if "--replay" in argv:
         return replay(argv[argv.index("--replay") + 1])
     tier = C.tier_from_argv(argv)
     t0 = time.time()
-    verdict = C.Verdict(CID)
+    verdict = C.Verdict(CID, MATCHERS)
     build_err = None
     build_log_tail = ""
     terrs_early = []
@@ -1426,16 +1579,25 @@ def main():
                               "modelled only as exact rationals (coq/rd/RdAlgQModel.v, compared for dyadic values with "
                               "denominator <= 256); float rounding beyond that is compared with an exact rational "
                               "total and the laws only",
-                              "float products int(field * float(k)) of * and /: computed by the harness, the model "
-                              "only builds the result from them (exact integer scalars are modelled: mul_int)"],
+                              "* and / by float / Fraction scalars that are not exact dyadic rationals, and by integers with a "
+                              "product >= 2^53: the products int(field * f) come from an independent reference (Fraction "
+                              "arithmetic + correct rounding), the model only applies _fix to them (tags scalar-reference-only, "
+                              "int-scalar-above-2^53, fields-above-2^53)"],
         "known_findings_hit": verdict.known_hits,
     }
     C.write_evidence(CID, tier, t0, props, cov,
-                     ["model coq/rd/RdModel.v + RdAlgModel.v is hand-written; tied to relativedelta.py by this "
-                      "differential correspondence only",
+                     ["tie model <-> code: the straight-line integer methods are regenerated from /repo's source on every "
+                      "run (harness/gen_rd_methods.py -> coq/gen/RdMethodsGen.v) and proved equal to the hand model "
+                      "(C16_gen_*); trusted: the translator's accepted subset and its INTEGER reading of float-mediated "
+                      "operations (_sign/copysign valid for |x| < 2^1024, int(field * float(k)) for products below 2^53: "
+                      "bounds stated in the theorems, both sides exercised by this check); everything else (timedelta/"
+                      "date operands, /, float and Fraction scalars, float-valued fields) by differential correspondence",
                       "hash(): CPython's tuple/int hash maps equal keys to equal hashes (the implementation's "
                       "hash() is also compared directly on every equal pair)",
-                      "float arithmetic of CPython (products in __mul__/__div__, normalized()) is not modelled"],
+                      "float arithmetic of CPython is not modelled in Coq: * and / by float / Fraction scalars and by integers "
+                      "above the 2^53 bound are compared with an independent Python reference (exact Fraction arithmetic "
+                      "with one correct rounding per IEEE operation), normalized() on float fields with an exact rational "
+                      "total; inf / NaN arguments: observed and classified (stream nonfinite)"],
                      len(verdict.violations))
     print("C16 %s: obligations %d/%d, %d cases (%d distinct non-trivial), model-diff %d, law/spec violations %d, %.1fs"
           % (tier, props["discharged"], props["obligations"], evals, len(keys), n_model, n_conc, time.time() - t0))
